@@ -77,7 +77,7 @@ def run(pid, tier, seed, replay=None):
     t0 = time.time()
     d = clean_dir(outdir(pid, "work"))
     build_harness()
-    n_r = 296 if tier == "quick" else 1480   # 4 rounds over the classes: (matched | not) x (direct | through socket + UDPListener)
+    n_r = 320 if tier == "quick" else 1600   # 4 rounds over the classes: (matched | not) x (direct | through socket + UDPListener)
     n_w = 72 if tier == "quick" else 480
     results, deaths_all, stats = [], [], {}
     sources = [("reader", n_r, "Trace_RtpsReader.tla", "Trace_RtpsReader.cfg"), ("writer", n_w, "Trace_RtpsWriter.tla", "Trace_RtpsWriter.cfg")]
@@ -110,6 +110,35 @@ def run(pid, tier, seed, replay=None):
             r["acts"] = r["acts"] + suffix
         tlc_specs = allr
         log(f"[gen] {len(allr)} TLC behaviours with a hostile step, each extended by a valid suffix")
+        # fragment geometry chosen by the peer (FragAssembly.tla): the arithmetic stays in bounds on the model for every
+        # sequence of headers, and every sequence is sent to the real Reader
+        fc = "MC_FragAssembly_q.cfg" if tier == "quick" else "MC_FragAssembly_t.cfg"
+        o, info = tlc("FragAssembly.tla", fc, os.path.join(d, "tlc_mc"), workers=8, timeout=1500)
+        if not info.get("ok"):
+            log(o[-1500:]); raise ToolError(f"model checking {fc} failed: {info}")
+        mc_detail.append({"cfg": fc, **{k: info.get(k) for k in ("states", "transitions", "depth", "wall_s")}})
+        seqs = set()
+        for line in o.splitlines():
+            if line.startswith('"REPLAY '):
+                try:
+                    seqs.add(",".join(json.loads(json.loads(line)[len("REPLAY "):])["geom"]))
+                except Exception:
+                    pass
+        seqs = sorted(seqs)
+        # a sequence that is a proper prefix of another one adds nothing
+        seqs = [q for q in seqs if not any(o2.startswith(q + ",") for o2 in seqs[seqs.index(q) + 1: seqs.index(q) + 40])]
+        rnd.shuffle(seqs)
+        seqs = seqs[: (6400 if tier == "quick" else 30000)]
+        per = 16
+        geom_specs = []
+        for i in range(0, len(seqs), per):
+            acts = [{"a": "Match", "w": 1}] + ([{"a": "Match", "w": 3}] if (i // per) % 4 != 3 else [])
+            acts += [{"a": "Data", "w": 1, "sn": 1}, {"a": "Hostile", "w": 3, "cls": "geom:" + ";".join(seqs[i:i + per])}]
+            acts += [{"a": "DataFrag", "w": 1, "sn": 2, "fs": 1, "fc": 1, "tot": 2}, {"a": "DataFrag", "w": 1, "sn": 2, "fs": 2, "fc": 1, "tot": 2},
+                     {"a": "Data", "w": 1, "sn": 3}, {"a": "Heartbeat", "w": 1, "first": 1, "last": 3, "count": 50, "fin": False}, {"a": "Take", "max": 1000}]
+            geom_specs.append({"reliable": True, "acts": acts, "via_socket": (i // per) % 8 == 5})
+        tlc_specs = tlc_specs + geom_specs
+        log(f"[gen] {len(seqs)} DATAFRAG header sequences from {fc} ({info['states']} states) in {len(geom_specs)} runs")
     for driver, n, tm, tc in sources:
         sf = os.path.join(d, f"{driver}_specs.jsonl")
         if replay is None:
